@@ -22,7 +22,7 @@ ASSUMPTIONS = [
 ]
 MINIMUM = {"distinct": 3000, "read_calls": 10000, "write_histories": 20, "bytes_cases": 500}
 EXHAUSTIVE = {"quick": False, "thorough": False}
-SHARD_TIMEOUT = {"quick": 240, "thorough": 1800}
+SHARD_TIMEOUT = {"quick": 120, "thorough": 1800}
 
 
 def shards(tier, seed):
